@@ -354,6 +354,10 @@ def leg_c17_diff(pid, tier, seed, h):
 
 MODEL = True
 
+# default --scale of the quick tier (random streams only; measured: every check < ~12 s warm)
+QUICK_SCALE = {"C01": "32", "C02": "32", "C04": "32", "C05": "100", "C06": "5", "C07": "24", "C08": "64", "C09": "64", "C10": "48", "C11": "20",
+               "C12": "32", "C13": "64", "C14": "64", "C16": "12", "C18": "100", "C19": "64", "C20": "12"}
+
 SPECS = {
     "C01": {
         "profiles": ["release"],
